@@ -152,6 +152,8 @@ PROPS = {
              "bound": "one call of sort_new_items on a file with 1 module: 2 placed + 1 new UNIT, 1 placed + 1 new COMPU_METHOD, arbitrary distinct ids < 2^31", "timeout": 240},
             {"engine": "E2", "module": "sort", "harness": "h_sort_new_optional_items", "functions": ["sort::sort_new_items", "sort::sort_optional_item"],
              "bound": "MOD_COMMON / MOD_PAR present or not with arbitrary ids < 2^31", "timeout": 120},
+            {"engine": "E2", "module": "lib", "harness": "h_sort_new_many_children", "msg_prefix": "C15", "functions": ["A2lFile::sort_new_items", "sort::sort_new_items", "sort::sort_objectlist_new", "writer::Writer::add_group", "writer::Writer::sort_function", "A2lFile::write_to_string", "load_from_string"],
+             "bound": "modules with 24 / 18 / 10 placed children (MEASUREMENT and UNIT interleaved) + 4 / 12 / 16 new MEASUREMENTs pushed in 4 rotations, then one new UNIT, then two more MEASUREMENTs, sort_new_items + write after each batch: write order = list order, placed elements keep their order, reload equal, repeated cycles identical. An unstable sort is modelled demonically above 20 elements (runs of equal elements reversed); the native replay decides", "timeout": 400, "extra_modules": ["tokenizer"], "max_steps": 150000000, "must_cover": ["sort_new_many_children_end"]},
             {"engine": "E2", "module": "sort", "harness": "h_sort_new_unnamed_lists_s", "functions": ["sort::sort_new_items"],
              "bound": "one call on a module with <= 2 IF_DATA and <= 1 USER_RIGHTS (each placed with an arbitrary distinct id < 2^31 or new, in any Vec order) and one placed UNIT", "timeout": 300, "must_cover": ["full unnamed lists"]},
             {"engine": "E2", "module": "sort", "harness": "h_sort_new_unnamed_lists", "functions": ["sort::sort_new_items"], "quick": False,
@@ -251,6 +253,8 @@ PROPS = {
              "timeout": 300, "extra_modules": ["tokenizer"], "max_steps": 3000000, "quick": n <= 2}
             for n in (2, 3)
         ] + [
+            {"engine": "E2", "module": "lib", "harness": "h_sort_new_many_children", "msg_prefix": "C01", "functions": ["A2lFile::sort_new_items", "A2lFile::write_to_string", "load_from_string"],
+             "bound": "models built through the API: 10-24 placed children + up to 19 new elements over three insert / sort_new_items / write cycles: load(write(M)) == M", "timeout": 400, "extra_modules": ["tokenizer", "sort"], "max_steps": 150000000, "must_cover": ["sort_new_many_children_end"]},
             {"engine": "E2", "module": "lib", "harness": "h_ifdata_soup_known_d20", "known": "D20", "functions": ["load_from_string", "A2lFile::write_to_string"],
              "bound": "the recorded input of known finding D20", "timeout": 200, "extra_modules": ["tokenizer"]},
         ],
